@@ -21,6 +21,11 @@ INT_LABEL_WRAPPERS = [
 def run(res):
     run_contracts(res, cl.CONTRACTS, cl.CONTRACTS)
     frames.bulk_accessor_defined_with_per_sample(res, INT_LABEL_WRAPPERS)
+    import glob, os
+    from pyvc.engine import REPO
+    files = sorted(os.path.relpath(p_, REPO) for d in ("kappadata/wrappers/dataset_wrappers", "kappadata/wrappers/sample_wrappers")
+                   for p_ in glob.glob(os.path.join(REPO, d, "**", "*.py"), recursive=True))
+    frames.seed_presence_by_identity(res, files)
     r, n = rp.search(10000, res.seed)
     add_direct(res, "bounded:label-wrappers", "bounded", r is None, backend="bounded", model=r,
                note="real wrappers over small label lists: bulk == per-sample, range, inner labels untouched, x untouched, reproducible")
